@@ -6,7 +6,8 @@ import os
 
 VERIF = os.path.dirname(os.path.dirname(os.path.abspath(__file__)))
 AX = ('Trusted: Coq 8.16.1 kernel; axioms ClassicalDedekindReals.sig_forall_dec, sig_not_dec and '
-      'FunctionalExtensionality.functional_extensionality_dep (standard-library reals, as printed by Print Assumptions); ')
+      'FunctionalExtensionality.functional_extensionality_dep (standard-library reals, as printed by Print Assumptions); coqchk -o (thorough tier) '
+      'lists in addition Classical_Prop.classic, declared by the standard library and loaded through Reals/Coquelicot, on which no property theorem depends; ')
 TR = ('the ast translator tools/tr_poses.py + symx.py (validated on every run by evaluating the generated terms over PrimFloat '
       'inside Coq against the implementation); numpy float64 = IEEE binary64; numpy sin/cos values taken as given. ')
 
